@@ -120,6 +120,9 @@ var shapePatterns = []string{"steal-right", "steal-left", "merge", "internal", "
 func GenOp(t *rapid.T, opts Options) Op {
 	switch rapid.IntRange(0, 19).Draw(t, "opclass") {
 	case 0, 1, 2:
+		if rapid.IntRange(0, 5).Draw(t, "repos") == 0 {
+			return Op{Op: "Reposition", Key: genKeySpec(t, "k"), Pattern: rapid.SampledFrom([]string{"first", "last", "first", "last", "at"}).Draw(t, "reposend"), A: rapid.IntRange(0, 1000).Draw(t, "reposarg")}
+		}
 		return Op{Op: "Put", Key: genKeySpec(t, "k"), Copy: rapid.Bool().Draw(t, "copy")}
 	case 3, 4, 5:
 		return Op{Op: "Delete", Key: genKeySpec(t, "k"), Copy: rapid.Bool().Draw(t, "copy")}
@@ -683,6 +686,40 @@ func (e *exec[K]) runOp(o Op) error {
 		return e.put(c, e.m.Resolve(o.Key))
 	case "Delete":
 		return e.del(c, e.m.Resolve(o.Key))
+	case "Reposition":
+		// The very key object the collection holds (the smallest, the largest, or some other one) is taken out,
+		// rewritten so that it sorts elsewhere, and put in again - a job whose due time changes. A key must keep
+		// its place "while it is in the map"; after Delete it is the caller's again.
+		if e.kk.Set == nil || e.m.Len() == 0 {
+			return nil
+		}
+		var k K
+		switch o.Pattern {
+		case "first":
+			k, _ = c.First()
+		case "last":
+			k, _ = c.Last()
+		default:
+			it := c.Iterate()
+			for i := 0; i <= o.A%e.m.Len(); i++ {
+				kv, _ := it.Next()
+				k = kv.Key
+			}
+		}
+		old, to := e.kk.Un(k), e.m.Resolve(o.Key)
+		c.Delete(k)
+		if !e.m.Delete(old) {
+			return e.viol("first-last", "the key %d that First/Last/Iterate handed out is not in the model", old)
+		}
+		e.kk.Set(k, to)
+		v := e.fresh()
+		if !c.IsMap() {
+			v = nil
+		}
+		c.Put(k, v)
+		e.m.Put(to, v)
+		e.out.Label("key-object-repositioned")
+		return e.afterMutation(false)
 	case "Get", "Contains":
 		return e.checkLookup(c, e.m.Resolve(o.Key))
 	case "Len":
